@@ -239,3 +239,26 @@ def c03_ratio(ctx):
     ctx.assume(z3.ForAll([s], I(s) == s * b))                     # linearity contract: integrate(s * img) = s * integrate(img)
     ctx.assume(b != 0)
     ctx.ensure("integrate((I_ref / I_img) * img) == I_ref", I(a / b) == a)
+
+
+@ob("C03.history_rejected", cases=[dict(dim=d, geom=g, foreign=f) for d in (1, 3) for g in ("weighted-array", "extruded-array", "porous-array", "extporous-aa", "extporous-ia", "plain")
+                                   for f in ("coarser", "finer")],
+    mods=MODS, funcs=FUNCS, stubs=STUBS, samples=(2, 3), tol=1e-6,
+    cite="The value returned for given data does not depend on what was integrated earlier with the same geometry object",
+    note="history with a REJECTED call: data at a foreign resolution is refused for array-valued volumes outside 2-D (ValueError); whether the earlier call was refused or served, "
+         "a later call at native resolution equals a fresh object's result (after seed C03_e: cache written before the refusal)")
+def c03_history_rejected(ctx, dim, geom, foreign):
+    native = {1: (4,), 3: (2, 2, 2)}[dim]
+    used, w, vol = make_geometry(ctx, geom, native)
+    fshape = tuple(n // 2 for n in native) if foreign == "coarser" else tuple(n * 2 for n in native)
+    y = make_data(ctx, fshape, "scalar", "y")[0]
+    refused = False
+    try:
+        used.integrate(y)
+    except Exception:      # noqa: BLE001 - any refusal
+        refused = True
+    x, xarr = make_data(ctx, native, "scalar", "x")
+    fresh, w2, vol2 = make_geometry(ctx, geom, native)
+    got = used.integrate(x)
+    ctx.ensure(f"after a {'refused' if refused else 'served'} call at {foreign} resolution: integrate(native data) equals a fresh object's result", eq(got, fresh.integrate(x)))
+    ctx.ensure("... and is the specified weighted sum", eq(got, spec_integral(xarr, w, vol, dim)))
